@@ -236,6 +236,13 @@ def run(ctx):
         in_try = any(isinstance(a, ast.Try) for a in __import__("sa.loader", fromlist=["ancestors"]).ancestors(c))
         r3.check(ok and not in_try, f"print_xform_to_file:{norm(c)[:60]}",
                  "validator warnings extend the caller's list; validator exceptions are not swallowed", pf.loc(c))
+        # the validator is asked every time it is requested: the only condition on the call is the caller's flag
+        # (no "already validated" shortcut - a verdict is never reused for a later call)
+        from ..astutil import guard_texts as _gt
+        gts = [g_ for g_ in _gt(c, stop=pf.node)]
+        which = norm(c.func)
+        want_flag = "enketo" if "enketo" in which else "validate"
+        r3.check(gts == [want_flag], f"print_xform_to_file:{which} guard", f"runs whenever `{want_flag}` is requested, under no other condition", pf.loc(c), why_fail=f"guards={gts}")
     rules.append(r3)
 
     # ------------------------------------------------------------------ R4
